@@ -1,111 +1,100 @@
 (* C06 - a ResendRequest is answered completely, in order and without side effects.
-   Theorems only (proofs in AF.Lemmas.ResendL) about the model Fix/Resend.v of
-   AsyncFIXConnection._process_resend and what it calls, AS REPAIRED by
-   fixes/D12-resend-keeps-journal.patch (the handler no longer rewinds / truncates the outbound
-   journal, send_msg does not journal PossDupFlag=Y frames and SequenceReset-GapFill frames, and a
-   BeginSeqNo below 1 is read as 1).
+   Theorems only (proofs in AF.Lemmas.ResendL) about the model Fix/Resend.v of how the dispatcher
+   serves a ResendRequest: serve_resend = the call site in _process_message (try / finally that
+   restores ACTIVE when the handler leaves RESENDREQ_HANDLING) around _process_resend and what it
+   calls, with the repairs D12 (the journal is neither rewound nor rewritten, BeginSeqNo below 1 is
+   read as 1) and R3c (state restored after an abort).
 
-   The property for one request (bs, es = texts of tags 7 and 16) with replay filter f in state s is
-   the predicate  resend_correct f s bs es  (Lemmas/ResendL.v):
+   The property for one request (bs, es = texts of tags 7 and 16, None = tag absent) with replay
+   filter f in state s is the predicate  resend_correct f s bs es  (Lemmas/ResendL.v):
      the frames written are  chain (rows s) f hi lo hi  over the requested range [lo, hi) of
      already-sent numbers (a retransmission with the number kept, PossDupFlag=Y, OrigSendingTime =
      the original SendingTime and the body otherwise identical for every journaled application
      message the filter accepts; one GapFill(seq = first, NewSeqNo = next) per maximal run of other
      numbers - session-level, declined, missing; hence no session-level message retransmitted);
-     nothing is written for a request that must not be answered; the WHOLE outbound journal (inside
-     and outside the range), next_num_out (live and stored) and the connection state are what they were.
+     nothing is written for a request that cannot be read, whose EndSeqNo is below its BeginSeqNo, or
+     that asks for nothing that was sent; the WHOLE outbound journal, next_num_out (live and stored)
+     and the connection state are what they were.
    FULL STATEMENT (what C06 asks):   forall f s bs es, resend_correct f s bs es.
-   The "no side effects on journal and counters" half now holds unconditionally (C06_no_side_effects);
-   the reply / state half holds outside five classes; one refutation per remaining class. *)
+   The "no side effects" half holds unconditionally (C06_no_side_effects); the reply half holds
+   outside four classes; one refutation per class. *)
 From Coq Require Import ZArith NArith List Bool.
 From AF Require Import Base.Sx Py.Str Fix.Resend Lemmas.ResendL.
 From AFGen Require Import GenEnums.
 Import ListNotations.
 Open Scope Z_scope.
 
-(* UNCONDITIONAL (every state, journal, request - readable or not -, filter): the handler never
-   changes the outbound journal, next_num_out or the stored counter; the exception that leaves it is
-   never DuplicateSeqNoError / FIXConnectionError / EncodingError; without an exception the state ends
-   ACTIVE (stays RESENDREQ_AWAITING), with one it is left RESENDREQ_HANDLING (stays AWAITING). *)
+(* UNCONDITIONAL (every state, journal, request - readable or not -, filter): serving a
+   ResendRequest never changes the outbound journal, next_num_out or the stored counter; the
+   exception that reaches the dispatcher is never DuplicateSeqNoError / FIXConnectionError /
+   EncodingError; the state afterwards is ACTIVE (RESENDREQ_AWAITING if it was) whether or not the
+   handler aborted; every frame written carries a MsgSeqNum of at least 1. *)
 Theorem C06_no_side_effects : forall f s bs es,
-  let (s', x) := process_resend f bs es s in
+  let (s', x) := serve_resend f bs es s in
   rows s' = rows s /\ nout s' = nout s /\ sout s' = sout s
   /\ allowed_exc x
-  /\ cstate s' = (if cstate s =? ST_AWAITING then ST_AWAITING
-                  else match x with None => ST_ACTIVE | Some _ => ST_HANDLING end).
-Proof. exact resend_general. Qed.
+  /\ cstate s' = (if cstate s =? ST_AWAITING then ST_AWAITING else ST_ACTIVE)
+  /\ exists W, wire s' = wire s ++ W /\ Forall (fun fr => 1 <= r_seq fr) W.
+Proof. exact serve_general. Qed.
 Print Assumptions C06_no_side_effects.
 
-(* every frame the handler writes, whatever the request, carries a MsgSeqNum of at least 1 *)
-Theorem C06_no_nonpositive_numbers : forall f s bs es,
-  exists W, wire (fst (process_resend f bs es s)) = wire s ++ W /\ Forall (fun fr => 1 <= r_seq fr) W.
-Proof. exact resend_wire_positive. Qed.
-Print Assumptions C06_no_nonpositive_numbers.
+(* in the two states in which a request is served: the state afterwards is the state before, always *)
+Theorem C06_state_restored : forall f s bs es,
+  (cstate s = ST_ACTIVE \/ cstate s = ST_AWAITING) -> cstate (fst (serve_resend f bs es s)) = cstate s.
+Proof. exact serve_state_restored. Qed.
+Print Assumptions C06_state_restored.
 
-(* a request with BeginSeqNo <= 0 is handled exactly like BeginSeqNo = 1: same frames, same state
-   and counters afterwards, and it is the same request for the property (was C06-begin-nonpositive) *)
+(* The reply, unbounded in the journal: every journal with unique keys below the counter
+   (journal_ok: C05/C13 invariants), every replay filter, both start states and EVERY request -
+   unreadable, any BeginSeqNo (below 1, beyond the last sent number, beyond 64 bits), any EndSeqNo -
+   outside the four classes: the property holds in full.  (in_class k bs es = k applied to the
+   request as the handler reads it, (max(1, int(tag 7)), int(tag 16)); false for an unreadable one.) *)
+Theorem C06_reply_chain_partial : forall f s bs es,
+  (cstate s = ST_ACTIVE \/ cstate s = ST_AWAITING) ->
+  journal_ok s -> NoDup (map r_seq (rows s)) ->
+  in_class (k_end_beyond_64 s) bs es = false ->               (* not: EndSeqNo > 2^63-1 while something sent is asked for *)
+  in_class (k_bounded_end s) bs es = false ->                 (* EndSeqNo = 0 or >= the last sent number *)
+  in_class (k_row_carries_possdup_tags f s) bs es = false ->  (* no replayed row in range was journaled with tag 43/122 *)
+  in_class (k_hole_before_replayed f s) bs es = false ->      (* no replayed row in range follows a missing number *)
+  resend_correct f s bs es.
+Proof. exact resend_partial_total. Qed.
+Print Assumptions C06_reply_chain_partial.
+
+(* an unreadable request (tag absent / not a number): nothing sent, everything as before *)
+Theorem C06_unreadable_request_ok : forall f s bs es,
+  (cstate s = ST_ACTIVE \/ cstate s = ST_AWAITING) -> parse_req bs es = None -> resend_correct f s bs es.
+Proof. exact unreadable_correct. Qed.
+Print Assumptions C06_unreadable_request_ok.
+
+(* the state left behind satisfies the same hypotheses: any further request is answered correctly *)
+Theorem C06_repeated_requests : forall f s bs es f2 bs2 es2,
+  (cstate s = ST_ACTIVE \/ cstate s = ST_AWAITING) ->
+  journal_ok s -> NoDup (map r_seq (rows s)) ->
+  let s1 := fst (serve_resend f bs es s) in
+  in_class (k_end_beyond_64 s) bs2 es2 = false ->
+  in_class (k_bounded_end s) bs2 es2 = false ->
+  in_class (k_row_carries_possdup_tags f2 s) bs2 es2 = false ->
+  in_class (k_hole_before_replayed f2 s) bs2 es2 = false ->
+  resend_correct f2 s1 bs2 es2.
+Proof. exact serve_repeatable. Qed.
+Print Assumptions C06_repeated_requests.
+
+(* pristine journals (original sends numbered 1..n, a suffix may be missing), ANY BeginSeqNo, EndSeqNo = 0 *)
+Theorem C06_reply_chain_pristine : forall f s bs es b,
+  py_int bs = Some b -> py_int es = Some 0 ->
+  (cstate s = ST_ACTIVE \/ cstate s = ST_AWAITING) -> pristine s ->
+  resend_correct f s (Some bs) (Some es).
+Proof. exact pristine_total. Qed.
+Print Assumptions C06_reply_chain_pristine.
+
+(* a request with BeginSeqNo <= 0 is served exactly like BeginSeqNo = 1 *)
 Theorem C06_begin_nonpositive_as_one : forall f s bs es b,
   py_int bs = Some b -> b < 1 ->
-  process_resend f (Some bs) es s = process_resend f (dec 1) es s
+  serve_resend f (Some bs) es s = serve_resend f (dec 1) es s
   /\ requested_range s (Some bs) es = requested_range s (dec 1) es
   /\ (resend_correct f s (Some bs) es <-> resend_correct f s (dec 1) es).
 Proof. exact begin_nonpositive_as_one. Qed.
 Print Assumptions C06_begin_nonpositive_as_one.
-
-Theorem C06_begin_nonpositive_example :
-  resend_correct w_all w_small (dec 0) (dec 0) /\ resend_correct w_all w_small (dec (-3)) (dec 0)
-  /\ (let (s', x) := process_resend w_all (dec (-3)) (dec 0) w_small in
-      x = None /\ map r_seq (wire s') = [1; 2] /\ map r_type (wire s') = [MT_SEQUENCERESET; [68%N]]
-      /\ cstate s' = ST_ACTIVE /\ nout s' = 3).
-Proof. exact begin_nonpositive_example. Qed.
-Print Assumptions C06_begin_nonpositive_example.
-
-(* The reply: unbounded in the journal; every journal with unique keys below the counter
-   (journal_ok: C05/C13 invariants), every replay filter, both start states, every readable request
-   - any BeginSeqNo, also zero and negative: b is the number the code uses, max(1, BeginSeqNo) -
-   outside the five classes: the property holds in full. *)
-Theorem C06_reply_chain_partial : forall f s bs es b0 e0,
-  py_int bs = Some b0 -> py_int es = Some e0 ->
-  let b := clamp1 b0 in
-  (cstate s = ST_ACTIVE \/ cstate s = ST_AWAITING) ->
-  journal_ok s -> NoDup (map r_seq (rows s)) ->
-  k_unparsable (Some bs) (Some es) = false ->          (* tags 7/16 readable, within 64 bits *)
-  k_begin_beyond s b = false ->                        (* BeginSeqNo <= next_num_out *)
-  k_bounded_end s b e0 = false ->                      (* EndSeqNo = 0 or >= the last sent number *)
-  k_row_carries_possdup_tags f s b e0 = false ->       (* no replayed row in range was journaled with tag 43/122 *)
-  k_hole_before_replayed f s b e0 = false ->           (* no replayed row in range follows a missing number *)
-  resend_correct f s (Some bs) (Some es).
-Proof. exact resend_partial_classes. Qed.
-Print Assumptions C06_reply_chain_partial.
-
-(* ... and the state it leaves satisfies the same hypotheses: any further request - the same range
-   again, or another one - is answered correctly too (was C06_second_request_refuted, D12) *)
-Theorem C06_repeated_requests : forall f s bs es b0 e0 f2 bs2 es2 c0 e2,
-  py_int bs = Some b0 -> py_int es = Some e0 ->
-  let b := clamp1 b0 in
-  (cstate s = ST_ACTIVE \/ cstate s = ST_AWAITING) ->
-  journal_ok s -> NoDup (map r_seq (rows s)) ->
-  k_unparsable (Some bs) (Some es) = false ->
-  k_begin_beyond s b = false -> k_bounded_end s b e0 = false ->
-  k_row_carries_possdup_tags f s b e0 = false -> k_hole_before_replayed f s b e0 = false ->
-  let s1 := fst (process_resend f (Some bs) (Some es) s) in
-  py_int bs2 = Some c0 -> py_int es2 = Some e2 ->
-  let b2 := clamp1 c0 in
-  k_unparsable (Some bs2) (Some es2) = false ->
-  k_begin_beyond s b2 = false -> k_bounded_end s b2 e2 = false ->
-  k_row_carries_possdup_tags f2 s b2 e2 = false -> k_hole_before_replayed f2 s b2 e2 = false ->
-  resend_correct f2 s1 (Some bs2) (Some es2).
-Proof. exact resend_repeatable. Qed.
-Print Assumptions C06_repeated_requests.
-
-(* pristine journals (original sends numbered 1..n, a suffix may be missing), every BeginSeqNo up to
-   next_num_out (also zero and negative), EndSeqNo = 0 *)
-Theorem C06_reply_chain_pristine : forall f s bs es b,
-  py_int bs = Some b -> py_int es = Some 0 ->
-  (cstate s = ST_ACTIVE \/ cstate s = ST_AWAITING) -> pristine s -> b <= nout s ->
-  resend_correct f s (Some bs) (Some es).
-Proof. exact pristine_partial. Qed.
-Print Assumptions C06_reply_chain_pristine.
 
 (* what a chain is made of: every frame is the copy of a replayable journaled message or a gap fill *)
 Theorem C06_no_session_retransmit : forall J f lim a c W, chain J f lim a c W -> forall fr, In fr W ->
@@ -121,65 +110,79 @@ Theorem C06_sent_rows_wellformed : forall m s s',
 Proof. exact send_msg_frame_codec_row. Qed.
 Print Assumptions C06_sent_rows_wellformed.
 
-(* the concrete second request of the old D12 witness, now answered like the first *)
+(* ---- concrete positive instances (replayed on the implementation by harness/c06.py) *)
+
 Theorem C06_second_request_ok :
   pristine w_first /\ resend_correct w_all w_first (dec 2) (dec 0)
   /\ rows w_second = rows w_first /\ nout w_second = 4
   /\ resend_correct w_all w_second (dec 2) (dec 0)
-  /\ map r_seq (wire (fst (process_resend w_all (dec 2) (dec 0) w_second))) = [2; 3; 2; 3].
+  /\ map r_seq (wire (fst (serve_resend w_all (dec 2) (dec 0) w_second))) = [2; 3; 2; 3].
 Proof. exact second_request_ok. Qed.
 Print Assumptions C06_second_request_ok.
 
-(* ---- refutations of the full statement, one per remaining known-finding class (each witness is
-   replayed on the implementation by harness/c06.py; classes_of = the five predicates in the order above) *)
+(* BeginSeqNo beyond next_num_out, BeginSeqNo = "x", tag 7 absent: the handler aborts (AssertionError,
+   ValueError, TagNotFoundError), nothing is written or changed, the state goes HANDLING -> ACTIVE.
+   For these requests that IS the property ("... also when the request is invalid"). *)
+Theorem C06_unanswerable_requests_ok :
+  resend_correct w_all w_small (dec 5) (dec 0)
+  /\ resend_correct w_all w_small (Some [120%N]) (dec 0)
+  /\ resend_correct w_all w_small None (dec 0)
+  /\ serve_resend w_all (dec 5) (dec 0) w_small
+     = (mkSt ST_ACTIVE false false 3 2 2 (rows w_small) [] [] [ST_HANDLING; ST_ACTIVE], Some EAssertion)
+  /\ serve_resend w_all (Some [120%N]) (dec 0) w_small
+     = (mkSt ST_ACTIVE false false 3 2 2 (rows w_small) [] [] [ST_HANDLING; ST_ACTIVE], Some EValue).
+Proof. exact unanswerable_requests_ok. Qed.
+Print Assumptions C06_unanswerable_requests_ok.
 
-(* bounded EndSeqNo: the reply gap-fills past EndSeqNo up to next_num_out (the journal is intact now) *)
+Theorem C06_begin_nonpositive_example :
+  resend_correct w_all w_small (dec 0) (dec 0) /\ resend_correct w_all w_small (dec (-3)) (dec 0)
+  /\ (let (s', x) := serve_resend w_all (dec (-3)) (dec 0) w_small in
+      x = None /\ map r_seq (wire s') = [1; 2] /\ map r_type (wire s') = [MT_SEQUENCERESET; [68%N]]
+      /\ cstate s' = ST_ACTIVE /\ nout s' = 3).
+Proof. exact begin_nonpositive_example. Qed.
+Print Assumptions C06_begin_nonpositive_example.
+
+(* ---- refutations of the full statement, one per remaining known-finding class (each witness is
+   replayed on the implementation; classes_of = the four predicates in the order of the partial theorem) *)
+
+(* bounded EndSeqNo: the reply gap-fills past EndSeqNo up to next_num_out *)
 Theorem C06_bounded_end_refuted :
   pristine w_bounded
-  /\ classes_of w_all w_bounded (dec 2) (dec 2) 2 2 = (false, false, true, false, false)
+  /\ classes_of w_all w_bounded (dec 2) (dec 2) = (false, true, false, false)
   /\ ~ resend_correct w_all w_bounded (dec 2) (dec 2)
-  /\ (let (s', x) := process_resend w_all (dec 2) (dec 2) w_bounded in
+  /\ (let (s', x) := serve_resend w_all (dec 2) (dec 2) w_bounded in
       x = None /\ map r_seq (wire s') = [2; 3]
       /\ map (fun r => get_tag T_NewSeqNo (r_body r)) (wire s') = [None; Some [53%N]]).
 Proof. exact bounded_end_refuted. Qed.
 Print Assumptions C06_bounded_end_refuted.
 
-(* BeginSeqNo beyond next_num_out: AssertionError, state stuck (counters no longer moved) *)
-Theorem C06_begin_beyond_refuted :
+(* EndSeqNo = 2^63 with BeginSeqNo = 2 of 2 sent: OverflowError, no answer to a valid request *)
+Theorem C06_end_beyond_64_refuted :
   pristine w_small
-  /\ classes_of w_all w_small (dec 5) (dec 0) 5 0 = (false, true, false, false, false)
-  /\ ~ resend_correct w_all w_small (dec 5) (dec 0)
-  /\ (let (s', x) := process_resend w_all (dec 5) (dec 0) w_small in
-      x = Some EAssertion /\ nout s' = 3 /\ sout s' = 2 /\ wire s' = [] /\ cstate s' = ST_HANDLING).
-Proof. exact begin_beyond_refuted. Qed.
-Print Assumptions C06_begin_beyond_refuted.
-
-(* unreadable BeginSeqNo: state stuck *)
-Theorem C06_unparsable_refuted :
-  k_unparsable (Some [120%N]) (dec 0) = true
-  /\ ~ resend_correct w_all w_small (Some [120%N]) (dec 0)
-  /\ (let (s', x) := process_resend w_all (Some [120%N]) (dec 0) w_small in
-      x = Some EValue /\ cstate s' = ST_HANDLING).
-Proof. exact unparsable_refuted. Qed.
-Print Assumptions C06_unparsable_refuted.
+  /\ classes_of w_all w_small (dec 2) (dec two63) = (true, false, false, false)
+  /\ ~ resend_correct w_all w_small (dec 2) (dec two63)
+  /\ (let (s', x) := serve_resend w_all (dec 2) (dec two63) w_small in
+      x = Some EOverflow /\ wire s' = [] /\ cstate s' = ST_ACTIVE).
+Proof. exact end_beyond_64_refuted. Qed.
+Print Assumptions C06_end_beyond_64_refuted.
 
 (* a hole between two application rows is not gap-filled: rows {1,2,4,5} -> reply 2,4,5 (D21) *)
 Theorem C06_hole_refuted :
   journal_ok w_hole /\ NoDup (map r_seq (rows w_hole))
-  /\ classes_of w_all w_hole (dec 2) (dec 0) 2 0 = (false, false, false, false, true)
+  /\ classes_of w_all w_hole (dec 2) (dec 0) = (false, false, false, true)
   /\ ~ resend_correct w_all w_hole (dec 2) (dec 0)
-  /\ (let (s', x) := process_resend w_all (dec 2) (dec 0) w_hole in
+  /\ (let (s', x) := serve_resend w_all (dec 2) (dec 0) w_hole in
       x = None /\ map r_seq (wire s') = [2; 4; 5] /\ map r_type (wire s') = [[68%N]; [68%N]; [68%N]]).
 Proof. exact hole_refuted. Qed.
 Print Assumptions C06_hole_refuted.
 
-(* an application message journaled with tag 43 (PossDupFlag=N) in its body cannot be retransmitted *)
+(* an application message journaled with tag 43 (PossDupFlag=N) in its body is never retransmitted *)
 Theorem C06_possdup_tag_refuted :
   journal_ok w_tagged /\ NoDup (map r_seq (rows w_tagged))
-  /\ classes_of w_all w_tagged (dec 2) (dec 0) 2 0 = (false, false, false, true, false)
+  /\ classes_of w_all w_tagged (dec 2) (dec 0) = (false, false, true, false)
   /\ ~ resend_correct w_all w_tagged (dec 2) (dec 0)
-  /\ (let (s', x) := process_resend w_all (dec 2) (dec 0) w_tagged in
-      x = Some EDuplicatedTag /\ wire s' = [] /\ cstate s' = ST_HANDLING).
+  /\ (let (s', x) := serve_resend w_all (dec 2) (dec 0) w_tagged in
+      x = Some EDuplicatedTag /\ wire s' = [] /\ cstate s' = ST_ACTIVE).
 Proof. exact possdup_tag_refuted. Qed.
 Print Assumptions C06_possdup_tag_refuted.
 
@@ -187,8 +190,8 @@ Print Assumptions C06_possdup_tag_refuted.
    suffix, in RESENDREQ_AWAITING, meets every hypothesis of C06_reply_chain_partial *)
 Example C06_nonvacuous :
   journal_ok w_rich /\ NoDup (map r_seq (rows w_rich)) /\ cstate w_rich = ST_AWAITING
-  /\ classes_of w_filter w_rich (dec 2) (dec 0) 2 0 = (false, false, false, false, false)
-  /\ (let s' := fst (process_resend w_filter (dec 2) (dec 0) w_rich) in
+  /\ classes_of w_filter w_rich (dec 2) (dec 0) = (false, false, false, false)
+  /\ (let s' := fst (serve_resend w_filter (dec 2) (dec 0) w_rich) in
       map r_seq (wire s') = [2; 3; 5; 6] /\ map r_type (wire s') = [[68%N]; MT_SEQUENCERESET; [68%N]; MT_SEQUENCERESET]
       /\ map (fun r => get_tag T_NewSeqNo (r_body r)) (wire s') = [None; Some [53%N]; None; Some [57%N]]
       /\ rows s' = rows w_rich /\ nout s' = 9 /\ cstate s' = ST_AWAITING).
